@@ -188,12 +188,15 @@ func (h *c15hist) close() {
 // store-write faults
 
 var c15errInjected = errors.New("c15: injected store failure")
+var c15errIO = errors.New("c15: injected input/output error")
 
 // c15registry routes the process-global verifhook markers to the history that owns the height
 // (heights are unique across histories) — histories run concurrently.
 type c15registry struct {
 	byHeight sync.Map // uint64 -> *c15hist
 	pending  sync.Map // goroutine id -> struct{}: the next Fault("store.put") on it fails
+	// pendingIO: goroutine id -> "ods.create" | "q4.create": that fault marker fails once on it
+	pendingIO sync.Map
 }
 
 var c15reg = &c15registry{}
@@ -238,11 +241,18 @@ func (g *c15registry) install() (restore func()) {
 			}
 		},
 		Fault: func(name string) error {
-			if name != "store.put" {
-				return nil
-			}
-			if _, ok := g.pending.LoadAndDelete(c15gid()); ok {
-				return c15errInjected
+			switch name {
+			case "store.put":
+				if _, ok := g.pending.LoadAndDelete(c15gid()); ok {
+					return c15errInjected
+				}
+			case "ods.create", "q4.create":
+				// an I/O error while the file is being created (not "already exists"): the store's own clean-up
+				// of a failed write runs
+				if v, ok := g.pendingIO.Load(c15gid()); ok && v.(string) == name {
+					g.pendingIO.Delete(c15gid())
+					return c15errIO
+				}
 			}
 			return nil
 		},
@@ -281,7 +291,11 @@ func (h *c15hist) onPut(ht int64) {
 	if out == "fsq4" && !b.inWindow { // this write does not touch the Q4 path
 		out = "fsods"
 	}
+	if out == "ioq4" && !b.inWindow {
+		out = "ioods"
+	}
 	q4, ods := h.faultPaths(b)
+	c15reg.pendingIO.Delete(c15gid()) // a fault armed for an earlier write on this goroutine that was never met
 	arm := func(dir string) bool { return os.MkdirAll(filepath.Join(dir, "x"), 0o755) == nil }
 	switch out {
 	case "fsq4", "fsods":
@@ -301,6 +315,19 @@ func (h *c15hist) onPut(ht int64) {
 	case "hook":
 		h.clearFaults(b)
 		c15reg.pending.Store(c15gid(), struct{}{})
+	case "ioods", "ioq4":
+		h.clearFaults(b)
+		if _, err := os.Lstat(ods); err == nil && out == "ioq4" {
+			// the ODS file of an earlier attempt is there: creation ends in "already exists" before the
+			// Q4 file is reached; an ordinary write
+			out = "ok"
+			break
+		}
+		name := "ods.create"
+		if out == "ioq4" {
+			name = "q4.create"
+		}
+		c15reg.pendingIO.Store(c15gid(), name)
 	default:
 		h.clearFaults(b)
 	}
